@@ -481,6 +481,16 @@ class Master(loader.Loader):
 
                 self._update_task(app, servername, why=None)
 
+            # Placement that stays is reconciled by content, not only by
+            # name: identity or expiry may have changed while reloading.
+            for app in correct & current:
+                placement_data = self._placement_data(app)
+                app_node = os.path.join(placement_node, app)
+                if self.backend.get_default(app_node) != placement_data:
+                    _LOGGER.info('Updating: %s - %s,%s',
+                                 servername, app, placement_data)
+                    self.backend.put(app_node, placement_data)
+
         self._save_placement(placement)
         self.up_to_date = True
 
